@@ -847,7 +847,11 @@ class Run:
                 names.append(r.target)
         want = ["/ppt/slides/slide%d.xml" % (i + 1) for i in range(len(names))]
         self.acc.count("slide_name_orders_checked")
-        if names != want:
+        if getattr(self, "names_disturbed", False):
+            # a slide was deleted by the recipe (harness-side surgery on p:sldIdLst, not an operation of the public API): the
+            # names close up again at the next add_slide or the next first access
+            self.acc.count("slide_name_orders_not_judged_after_a_recipe_deletion")
+        elif names != want:
             self.report("C06", "slide-partnames-not-1..n-in-order", "after .slides access the saved slide parts are %s" % names[:8])
 
     def reopen_and_compare(self, data):
@@ -1056,7 +1060,9 @@ def snapshot(prs):
                 try:
                     ca = sh.click_action
                     tgt = ca.target_slide
-                    d["action"] = (str(ca.action), ca.hyperlink.address, tgt.slide_id if tgt is not None else None)
+                    # (for a jump the "address" is the target's part NAME, which the first .slides access of a re-opened deck may
+                    # legitimately renumber: the slide id says which slide it is)
+                    d["action"] = (str(ca.action), ca.hyperlink.address if tgt is None else "(slide)", tgt.slide_id if tgt is not None else None)
                 except Exception as e:  # a jump to a slide no longer in the list etc.
                     d["action"] = "raises:" + type(e).__name__
             if getattr(sh, "has_text_frame", False) and sh._element.find("{%s}txBody" % P) is not None:
